@@ -20,6 +20,7 @@ import SA.Proofs.Queue
 import SA.Proofs.QueueLive
 import SA.Proofs.QueueWrap
 import SA.Proofs.DnsWrites
+import SA.Proofs.DnsPoll
 import SA.Model.DnsExchange
 namespace SA.Queue
 
@@ -345,6 +346,12 @@ open SA.Queue
     `if err != nil { return }` that follows `addChunk`.  Fails to compile when the order changes. -/
 theorem Facts.gen_counts_enqueued : Facts.gen.countPos = 0 := by decide
 
+/-- regenerated facts (`SA.Gen.c07PollArg`, `c07PollStops`) about the loop of the goroutine `Handshake` starts: a turn
+    hands `dc.out.NextChunk()` — the oldest unacknowledged fragment — to `SendAndReceive`, and nothing in the
+    loop body leaves the loop (it runs while `!dc.Closed()`).  Fails to compile when the loop sends a bare
+    poll or gains a break / return. -/
+theorem Facts.gen_poll_resends : Facts.gen.pollArg = 0 ∧ Facts.gen.pollStops = 0 := by decide
+
 /-- histories of the multi-write model: fragment size > 0, server writes of at most `Bd` bytes -/
 def WritesBounded (mtu Bd : Nat) (es : List WEv) : Prop :=
   0 < mtu ∧ 1 ≤ Bd ∧ Bd + Cfg.gen.max + 3 ≤ MOD ∧ es.all (WEv.ok Bd) = true
@@ -365,7 +372,8 @@ theorem C07_write_reports_enqueued (sab sba mtu Bd : Nat) (fates : List XF) (es 
         = runS Cfg.gen mtu (init sab sba) (runW Facts.gen mtu (start sab sba fates) es).core.evs.reverse ∧
     WellBounded Cfg.gen mtu 0 Bd (runW Facts.gen mtu (start sab sba fates) es).core.evs.reverse := by
   obtain ⟨hm, hBd, hb, hes⟩ := h
-  have inv := runW_inv (f := Facts.gen) (sab := sab) (sba := sba) hm hBd Facts.gen_counts_enqueued es _
+  have inv := runW_inv (f := Facts.gen) (sab := sab) (sba := sba) hm hBd Facts.gen_counts_enqueued
+    Facts.gen_poll_resends.1 es _
     (start_inv fates) hes
   refine ⟨inv.acc, inv.reach.run, hm, by omega, ?_⟩
   rw [List.all_reverse]; exact inv.reach.wb
@@ -387,7 +395,7 @@ theorem C07_reads_prefix_of_reported (sab sba mtu Bd : Nat) (fates : List XF) (e
   exact ⟨h1, h2⟩
 
 /-- the ordering of the seeded change: `if err != nil { return }` first, `n += len(data)` after it -/
-def Facts.countAfterReturn : Facts := { Facts.gen with countPos := 1 }
+def Facts.countAfterReturn : Facts := { Facts.gen with countPos := 1, pollArg := 0, pollStops := 0 }
 
 /-- kernel-checked counter-example for that ordering: a 3-fragment Write whose second exchange loses its
     query five times reports n = 1, the poll loop then delivers the second fragment, and the server end
@@ -406,6 +414,99 @@ example : (runW Facts.gen 1 (start 0 0 [.ok, .ql, .ql, .ql, .ql, .ql]) [.w 3, .p
 
 example : WritesBounded 3 5000 [.w 7, .W 5000, .p, .D, .w 1, .N, .r 2, .R 9, .w 0] := by decide
 
+/-! ## The poll loop delivers what the Writes left behind
+
+  A client Write whose exchange is lost five times returns with its fragment still in the out-queue (and
+  counted in n, `C07_write_reports_enqueued`).  Nothing but the loop of the goroutine `Handshake` starts
+  ever sends that fragment again.  `pollLoop f mtu n` is `n` turns of that loop (SA.Model.DnsWrites), its
+  body parameterised by the regenerated facts `pollArg` (what a turn hands to `SendAndReceive`) and
+  `pollStops` (statements that leave the loop). -/
+
+/-- the state of the multi-write model when the path has healed: the fate script is over, every further
+    communicator call is delivered -/
+def healed (c : Core) : Core := { c with fates := [], dflt := .ok }
+
+/-- **eventual delivery by the client's own poll loop**: after ANY history of writes (whole, given up
+    part-way on any fragment, parked), polls and reads under ANY script of communicator fates, once the
+    path has healed `n` turns of the poll loop — and nothing else — with `n ≥ |A.out|`, `n ≥ |B.out| + 1`
+    leave both out-queues empty, the server end has released exactly the first Σ n bytes of the client
+    application's stream (everything the client's Writes reported as accepted), and the client end has
+    released everything the server's Writes accepted.  Depends on the regenerated loop facts
+    (`Facts.gen_poll_resends`): with a bare poll it is false (`C07_witness_bare_poll`). -/
+theorem C07_eventual_delivery_by_poll (sab sba mtu Bd : Nat) (fates : List XF) (es : List WEv)
+    (hsab : sab < MOD) (hsba : sba < MOD) (h : WritesBounded mtu Bd es) (n : Nat)
+    (hna : (runW Facts.gen mtu (start sab sba fates) es).core.sys.a.outq.out.length ≤ n)
+    (hnb : (runW Facts.gen mtu (start sab sba fates) es).core.sys.b.outq.out.length + 1 ≤ n) :
+    (pollLoop Facts.gen mtu n (healed (runW Facts.gen mtu (start sab sba fates) es).core)).sys.a.outq.out = [] ∧
+    (pollLoop Facts.gen mtu n (healed (runW Facts.gen mtu (start sab sba fates) es).core)).sys.b.outq.out = [] ∧
+    (pollLoop Facts.gen mtu n (healed (runW Facts.gen mtu (start sab sba fates) es).core)).sys.b.inq.rel
+      = streamU 0 (runW Facts.gen mtu (start sab sba fates) es).posU ∧
+    (pollLoop Facts.gen mtu n (healed (runW Facts.gen mtu (start sab sba fates) es).core)).sys.a.inq.rel
+      = (runW Facts.gen mtu (start sab sba fates) es).core.sys.b.acc := by
+  obtain ⟨hacc, hrun, hwb⟩ := C07_write_reports_enqueued sab sba mtu Bd fates es h
+  have htries : Facts.gen.tries = 4 + 1 := by decide
+  have hl : _ = runS Cfg.gen mtu _ (pollEvs n) := (pollLoop_healthy (f := Facts.gen) (mtu := mtu) Facts.gen_poll_resends.1 Facts.gen_poll_resends.2 htries n
+    (healed (runW Facts.gen mtu (start sab sba fates) es).core) ⟨rfl, rfl⟩).1
+  have hd := C07_eventual_delivery_lossy sab sba mtu 0 Bd _ (pollEvs n) hsab hsba hwb (pollEvs_ok 0 n)
+    (by rw [pollEvs_count, ← hrun]; exact hna) (by rw [pollEvs_count, ← hrun]; exact hnb)
+  rw [← hrun] at hd
+  have hs : (healed (runW Facts.gen mtu (start sab sba fates) es).core).sys
+      = (runW Facts.gen mtu (start sab sba fates) es).core.sys := rfl
+  rw [hl, hs]
+  exact ⟨hd.1, hd.2.1, by rw [hd.2.2.2.2.1, hacc], hd.2.2.2.2.2⟩
+
+/-- the loop of the seeded change: every turn is `dc.SendAndReceive(nil)` -/
+def Facts.barePoll : Facts := { Facts.gen with pollArg := 1 }
+
+/-- the state in which the bare-poll loop is stuck: one client Write of one byte whose exchange lost its
+    query five times (`dnswrites mtu=1 sab=0 sba=0 w1 / ql ql ql ql ql`), the path healed, one turn -/
+def stuckCore : Core :=
+  pollLoop Facts.barePoll 1 1 (healed (runW Facts.barePoll 1 (start 0 0 [.ql, .ql, .ql, .ql, .ql]) [.w 1]).core)
+
+/-- kernel-checked counter-example for the bare poll, for EVERY number of turns: the Write reported its
+    byte as accepted (n = 1), the fragment is in the out-queue, the path heals — and however long the loop
+    runs, the fragment stays queued (so every later Write parks in waitEmptyQueue for ever) and the server
+    end has released nothing.  One bare exchange maps the state of the queue pair to itself
+    (`pollLoop_bare_fix`).  On the real code: `dnspoll mtu=1 Lq w1 H`. -/
+theorem C07_witness_bare_poll (n : Nat) :
+    (runW Facts.barePoll 1 (start 0 0 [.ql, .ql, .ql, .ql, .ql]) [.w 1]).posU = 1 ∧
+    (pollLoop Facts.barePoll 1 n stuckCore).sys.a.outq.out.length = 1 ∧
+    (pollLoop Facts.barePoll 1 n stuckCore).sys.b.inq.rel = [] ∧
+    ¬ ((pollLoop Facts.barePoll 1 n stuckCore).sys.b.inq.rel
+        = streamU 0 (runW Facts.barePoll 1 (start 0 0 [.ql, .ql, .ql, .ql, .ql]) [.w 1]).posU) := by
+  have hfix : (bareXchg Facts.barePoll.cfg stuckCore.sys true true).1 = stuckCore.sys := by rfl
+  have hS := pollLoop_bare_fix (f := Facts.barePoll) (mtu := 1) (k := 4) (by decide) (by decide) hfix n stuckCore
+    ⟨by rfl, by rfl⟩ rfl
+  rw [hS]
+  decide +kernel
+
+/-! non-vacuity: the same history with the regenerated loop — one turn delivers the byte -/
+example : (pollLoop Facts.gen 1 1 (healed (runW Facts.gen 1 (start 0 0 [.ql, .ql, .ql, .ql, .ql]) [.w 1]).core)).sys.b.inq.rel
+    = streamU 0 1 := by decide +kernel
+
+example := C07_eventual_delivery_by_poll 0 0 1 5 [.ql, .ql, .ql, .ql, .ql] [.w 1] (by decide) (by decide) (by decide) 1
+  (by decide +kernel) (by decide +kernel)
+
+/-- the loop's sleep in microseconds for a given `selectTimeout`, jitter draw `j < N` and error count, as the source
+    computes it: `time.Duration(dc.selectTimeout+jitter+(errCount*B)) * unit` with `jitter = j - M` (a negative
+    duration is replaced by 250 ns: counted as 0 here) -/
+def pollSleepUs (sel j errCount : Nat) : Nat :=
+  (sel + j + errCount * Gen.c07PollBackoff - Gen.c07PollJitterOff) * Gen.c07PollUnitUs
+
+/-- **the loop keeps turning**: with the regenerated constants a turn sleeps at most `selectTimeout` + 1.35 s
+    (the error count never exceeds 6: beyond 5 the loop closes the connection), i.e. < 1.5 s in lazy mode
+    (`selectTimeout = 0`) and < 2.5 s in legacy mode (`selectTimeout = 1000`). -/
+theorem C07_poll_period_bounded (sel j errCount : Nat) (hj : j < Gen.c07PollJitterN) (he : errCount ≤ 6) :
+    pollSleepUs sel j errCount ≤ (sel + 1350) * 1000 := by
+  unfold pollSleepUs
+  have h1 : Gen.c07PollBackoff = 200 := by decide
+  have h2 : Gen.c07PollJitterOff = 150 := by decide
+  have h3 : Gen.c07PollUnitUs = 1000 := by decide
+  have h4 : Gen.c07PollJitterN = 300 := by decide
+  rw [h1, h2, h3]
+  rw [h4] at hj
+  omega
+
 end SA.DnsWrites
 
 #print axioms SA.Queue.C07_safety
@@ -423,3 +524,6 @@ end SA.DnsWrites
 #print axioms SA.DnsWrites.C07_write_reports_enqueued
 #print axioms SA.DnsWrites.C07_reads_prefix_of_reported
 #print axioms SA.DnsWrites.C07_witness_count_after_return
+#print axioms SA.DnsWrites.C07_eventual_delivery_by_poll
+#print axioms SA.DnsWrites.C07_witness_bare_poll
+#print axioms SA.DnsWrites.C07_poll_period_bounded
